@@ -5,10 +5,10 @@ namespace PytypeModel.Dispatch
 
 theorem pyOption_b_fails {T : BView} {H : Hier} {op : Op} {refl : Bool} {k : Nat} {y : Operand}
     (h : ∀ r, pyOption T H op refl (.b k) y ≠ .returns r) :
-    T.py (if refl then (op.kind, 0, T.user, k) else (op.kind, 0, k, y.code T)) = true := by
+    T.py (if refl then (op.kind, 0, y.code T H, k) else (op.kind, 0, k, y.code T H)) = true := by
   unfold pyOption at h
   simp only at h
-  cases hp : T.py (if refl = true then (op.kind, 0, T.user, k) else (op.kind, 0, k, y.code T)) with
+  cases hp : T.py (if refl = true then (op.kind, 0, y.code T H, k) else (op.kind, 0, k, y.code T H)) with
   | true => rfl
   | false => rw [hp] at h; exact absurd rfl (h none)
 
@@ -27,7 +27,7 @@ theorem all_bad_singleton_typeError : [Outcome.typeError].all Outcome.bad = true
 theorem binop_no_false_error (T : BView) (exc : List RowKey) (hT : RowsOK1 T exc = true)
     (H : Hier) (x : Operand) (op : Op) (y : Operand)
     (herr : (modelBinop T H x op y).isErr = true)
-    (hrow : ∀ k, (Stmt.bin x op y).row T = some k → k ∉ exc) :
+    (hrow : ∀ k, (Stmt.bin x op y).row T H = some k → k ∉ exc) :
     (cpyBinop T H x op y).all Outcome.bad = true := by
   cases x with
   | b k =>
@@ -46,7 +46,7 @@ theorem binop_no_false_error (T : BView) (exc : List RowKey) (hT : RowsOK1 T exc
       have hpy := pyOption_b_fails h1
       have hf := pyOption_u_fails h2
       simp only [Operand.code, Bool.false_eq_true, if_false, if_true] at hpy hf
-      have hk : (op.kind, 0, k, T.user) ∉ exc := hrow _ (by simp [Stmt.row, Operand.code])
+      have hk : (op.kind, 0, k, userCode T H c) ∉ exc := hrow _ (by simp [Stmt.row, Operand.code])
       have hbase := py_bad_of_rowsOK1 hT hk hpy
       have hnv := callMaybe_noVal_of_optFails hf
       simp only [cpyBinop, hbase, if_true]
@@ -61,7 +61,7 @@ theorem binop_no_false_error (T : BView) (exc : List RowKey) (hT : RowsOK1 T exc
       have hf := pyOption_u_fails h1
       have hpy := pyOption_b_fails h2
       simp only [Bool.false_eq_true, if_false, if_true] at hpy hf
-      have hk : (op.kind, 0, T.user, k) ∉ exc := hrow _ (by simp [Stmt.row, Operand.code])
+      have hk : (op.kind, 0, userCode T H c, k) ∉ exc := hrow _ (by simp [Stmt.row, Operand.code])
       have hbase := py_bad_of_rowsOK1 hT hk hpy
       have hnv := callMaybe_noVal_of_optFails hf
       simp only [cpyBinop]
@@ -88,7 +88,7 @@ theorem table_stmt_no_false_error {T : BView} {exc : List RowKey} (hT : RowsOK1 
 outside `exc` satisfy clause 1 -/
 theorem stmt_no_false_error (T : BView) (exc : List RowKey) (hT : RowsOK1 T exc = true)
     (H : Hier) (s : Stmt) (herr : (modelStmt T H s).isErr = true)
-    (hrow : ∀ k, s.row T = some k → k ∉ exc) :
+    (hrow : ∀ k, s.row T H = some k → k ∉ exc) :
     (cpyStmt T H s).all Outcome.bad = true := by
   cases s with
   | bin x op y => exact binop_no_false_error T exc hT H x op y herr hrow
@@ -170,7 +170,7 @@ representative values is flagged, outside the exception rows -/
 theorem stmt_catches (T : BView) (exc : List RowKey) (hT : RowsOK2 T exc = true)
     (H : Hier) (s : Stmt) (hadv : s.advertised T = true)
     (hbad : (cpyStmt T H s).any Outcome.bad = true)
-    (hrow : ∀ k, s.row T = some k → k ∉ exc) :
+    (hrow : ∀ k, s.row T H = some k → k ∉ exc) :
     (modelStmt T H s).isErr = true := by
   cases s with
   | bin x op y =>
